@@ -98,19 +98,21 @@ def handle (op : String) (j : Json) : Option (Except String Json) :=
   | "openlist" => some do
     let votes ← getVotes j "votes"
     let n ← j.getObjValAs? Nat "n"
-    if n = 0 then throw "openlist: n_seats = 0 is outside the modelled domain"
     let clist ← j.getObjValAs? (List Nat) "list"
     let jf ← getRatOpt j "jump_fraction"
     let q ← match j.getObjVal? "quota" with
       | .ok (Json.str s) => do pure (some (← parseQuota s))
       | _ => pure none
+    let divides := match j.getObjVal? "quota" with
+      | .ok (Json.str s) => s == "hare" || s == "hare_rounded"
+      | _ => false
     let qf ← getRat j "quota_fraction"
     let cfg : OpenListCfg := {
       jumpFraction := jf, quota := q, quotaFraction := qf,
       takeHigher := (← j.getObjValAs? Bool "take_higher"),
       acceptEqual := (← j.getObjValAs? Bool "accept_equal"),
       listPrecedence := (← j.getObjValAs? Bool "list_precedence") }
-    pure (exceptJson candsJson (thresholdOpenList cfg votes n clist))
+    pure (exceptJson candsJson (thresholdOpenListAt divides cfg votes n clist))
   | "tiebreak" => some do
     let votes ← getVotes j "votes"
     let n ← j.getObjValAs? Nat "n"
